@@ -500,7 +500,7 @@ def load_spec(name):
         return json.load(fh)
 
 
-def r_seq(label, writer_tokens, reader_tokens, spec_name, site_w, site_r, fnw, fnr):
+def r_seq(label, writer_tokens, reader_tokens, spec_name, site_w, site_r, fnw, fnr, reader_prefix=False):
     """Obligations: writer == spec, reader == writer."""
     out = []
     w = normalise(writer_tokens)
@@ -517,6 +517,9 @@ def r_seq(label, writer_tokens, reader_tokens, spec_name, site_w, site_r, fnw, f
         r = normalise(reader_tokens)
         inst = "%s#reader==writer" % label
         req = "reader and writer visit the same fields in the same order, widths, prefixes and conditions"
+        if reader_prefix:
+            req += " (on the header part the reader parses; member data is addressed by offset)"
+            w = w[:len(r)]
         if seq_equal(r, w):
             out.append(ok("R-SEQ", inst, site_r, fnr, req, "%d tokens agree" % len(flatten(w))))
         else:
